@@ -90,6 +90,38 @@ func C14(c *core.Ctx) {
 			}
 			return paramSide(sl, fn, base)
 		}
+		// cmpAtom2: like cmpAtom but with independent facts for the true and the false edge
+		cmpAtom2 := func(name, field string, viaLen bool, ops map[token.Token][2]int) *core.Atom {
+			return &core.Atom{Name: name, Match: func(cond ssa.Value) (int, int) {
+				op, x, y, ok := core.Cmp(cond)
+				if !ok {
+					return 0, 0
+				}
+				if viaLen {
+					lx, ok1 := core.LenOf(x)
+					ly, ok2 := core.LenOf(y)
+					if !ok1 || !ok2 {
+						return 0, 0
+					}
+					x, y = lx, ly
+				}
+				sx, sy := fieldSide(x, field), fieldSide(y, field)
+				if sx == 1 && sy == 0 {
+					op = core.Swap(op)
+					sx, sy = sy, sx
+				}
+				if sx != 0 || sy != 1 {
+					return 0, 0
+				}
+				if r, ok := ops[op]; ok {
+					return r[0], r[1]
+				}
+				return 0, 0
+			}}
+		}
+		// lhs <= rhs and lhs >= rhs as what each comparison's outcome establishes
+		leqOps := map[token.Token][2]int{token.EQL: {1, 0}, token.NEQ: {0, 1}, token.LSS: {1, 0}, token.LEQ: {1, -1}, token.GTR: {-1, 1}, token.GEQ: {0, 1}}
+		geqOps := map[token.Token][2]int{token.EQL: {1, 0}, token.NEQ: {0, 1}, token.GTR: {1, 0}, token.GEQ: {1, -1}, token.LSS: {-1, 1}, token.LEQ: {0, 1}}
 		cmpAtom := func(name, field string, viaLen bool, ops map[token.Token]int) *core.Atom {
 			return &core.Atom{Name: name, Match: func(cond ssa.Value) (int, int) {
 				op, x, y, ok := core.Cmp(cond)
@@ -149,6 +181,18 @@ func C14(c *core.Ctx) {
 		} else {
 			for _, a := range []*core.Atom{typEq, lenEq} {
 				g := core.GateDeep(fn, finals, pos(a))
+				if !(g.OK && g.PassEdges > 0) {
+					// equality may also be established as "not smaller and not greater"
+					fld, viaLen := "Typ", false
+					if a == lenEq {
+						fld, viaLen = "Val", true
+					}
+					g1 := core.GateDeep(fn, finals, pos(cmpAtom2(a.Name+"[<=]", fld, viaLen, leqOps)))
+					g2 := core.GateDeep(fn, finals, pos(cmpAtom2(a.Name+"[>=]", fld, viaLen, geqOps)))
+					if g1.OK && g1.PassEdges > 0 && g2.OK && g2.PassEdges > 0 {
+						g = g1
+					}
+				}
 				c.Decide(g.OK && g.PassEdges > 0, "R14.1", "component-"+fnm+"-criterion:"+a.Name, p.Pos(fn.Pos()), "the byte comparison is reached only on the edge asserting "+a.Name, "Component."+fnm+" reaches the byte comparison without "+a.Name+" having been established: the "+strings.Split(a.Name, "=")[0]+" criterion is missing, so names that differ only in it compare equal/ordered by bytes alone")
 			}
 		}
@@ -181,11 +225,17 @@ func C14(c *core.Ctx) {
 			okNeg := len(neg1) > 0 && g2.OK && g2.PerLit[0] > 0 && g2.PerLit[1] > 0
 			c.Decide(okPos && okNeg, "R14.1", "component-Compare-sign", p.Pos(fn.Pos()), "-1 only under 'lhs smaller' (or non-component rhs), +1 only when no 'lhs smaller' test held", "Component.Compare returns the wrong sign for a type or length difference (canonical order reversed for that criterion)")
 			// the type criterion is decided before the length criterion
-			cutT, _ := core.CutEdges(fn, pos(typEq))
+			typLeq := cmpAtom2("typ<=", "Typ", false, leqOps)
+			typGeq := cmpAtom2("typ>=", "Typ", false, geqOps)
+			lenAny := cmpAtom2("len-compared", "Val", true, map[token.Token][2]int{token.EQL: {1, 1}, token.NEQ: {1, 1}, token.LSS: {1, 1}, token.LEQ: {1, 1}, token.GTR: {1, 1}, token.GEQ: {1, 1}})
+			cutLe, _ := core.CutEdges(fn, pos(typLeq))
+			cutGe, _ := core.CutEdges(fn, pos(typGeq))
 			reachLen := false
-			for _, f := range core.EdgeFacts(fn, lenEq) {
-				if core.ReachAvoiding(fn, fn.Blocks[0], map[*ssa.BasicBlock]bool{f.E.From: true}, cutT) != nil {
-					reachLen = true
+			for _, f := range core.EdgeFacts(fn, lenAny) {
+				for _, cut := range []map[core.Edge]bool{cutLe, cutGe} {
+					if core.ReachAvoiding(fn, fn.Blocks[0], map[*ssa.BasicBlock]bool{f.E.From: true}, cut) != nil {
+						reachLen = true
+					}
 				}
 			}
 			c.Decide(!reachLen, "R14.1", "component-Compare-type-before-length", p.Pos(fn.Pos()), "the length test is reached only after the types were found equal", "Component.Compare looks at the value length before the type is known to be equal")
@@ -587,8 +637,30 @@ func C14(c *core.Ctx) {
 			}
 			return 0, 0
 		}}
-		g1 := core.GateDeep(fn, accepts, neg(hasEq), pos(lo))
-		g2 := core.GateDeep(fn, accepts, neg(hasEq), pos(hi))
+		_ = hasEq
+		// from every store of a type that was parsed from the string (not the constant
+		// default) no accepting return is reachable except through the edges asserting
+		// typ > 0 and typ <= 0xffff
+		cutLo, perLo := core.CutEdges(fn, pos(lo))
+		cutHi, perHi := core.CutEdges(fn, pos(hi))
+		nParsed, okRange := 0, true
+		core.Instrs(fn, func(in ssa.Instruction) {
+			fa, v, ok := storeToField(in, "Component", "Typ")
+			if !ok || fa == nil {
+				return
+			}
+			if _, isC := core.ConstInt(v); isC {
+				return
+			}
+			nParsed++
+			for _, acc := range accepts {
+				if core.ReachInstrFrom(core.After(in), acc, cutLo, nil) != nil || core.ReachInstrFrom(core.After(in), acc, cutHi, nil) != nil {
+					okRange = false
+				}
+			}
+		})
+		g1 := core.GateResult{OK: okRange && nParsed > 0, PerLit: []int{0, perLo[0]}}
+		g2 := core.GateResult{OK: okRange && nParsed > 0, PerLit: []int{0, perHi[0]}}
 		c.Decide(len(accepts) > 0 && g1.OK && g1.PerLit[1] > 0 && g2.OK && g2.PerLit[1] > 0, "R14.3", "component-type-range", p.Pos(fn.Pos()), "a typed component is accepted only with 0 < type ≤ 0xffff", "componentFromStrInto accepts a component type outside 1..65535")
 	}
 }
